@@ -68,6 +68,9 @@ class Case:
     def __init__(self, c05, tokline, rng):
         self.tokline = tokline
         toks = tokline.split(" ")[1:]
+        self.noack = bool(toks) and toks[0] == "noack"
+        if self.noack:
+            toks = toks[1:]
 
         class Cl:
             hp = c05.MiniHpack()
@@ -89,9 +92,13 @@ class Case:
 
     def tab(self, hello=None):
         t = ";".join("%s=%s" % kv for kv in sorted(self.table.items()))
+        if hello and self.noack:
+            hello = None
         if hello:
             # (read sizes of the client's hello; an entry the model's table parser drops: "hello" is not hex)
             t = "hello=" + ".".join(str(n) for n in hello) + (";" + t if t else "")
+        if self.noack:
+            t = "noack" + (";" + t if t else "")
         return t or "-"
 
     def line(self, segs_per_step, hello=None):
@@ -169,7 +176,31 @@ def canon_out(c05, o):
     steps, fin, flags = parse_out(o)
     if steps is None:
         return o
-    return [c05.canon_model(" ".join(s)) for s in steps], fin, flags
+    return [c05.canon_model(" ".join(s), frames=True) for s in steps], fin, flags
+
+
+def header_splits(sent, steps):
+    """(client's SETTINGS_MAX_FRAME_SIZE in force, block length, payload sizes) of every response header block"""
+    out = set()
+    cur, pend = 16384, []
+    for toks, st in zip(sent, steps):
+        for t in toks:
+            a = t.split(":")
+            if a[0] == "S" and a[1] == "0" and a[2] == "0":
+                v = None
+                if a[3] != "-":
+                    for kv in a[3].split(","):
+                        if kv.startswith("5=") and 16384 <= int(kv[2:]) <= 16777215:
+                            v = int(kv[2:])
+                pend.append(v)
+        for t in st:
+            if t == "SA" and pend:
+                v = pend.pop(0)
+                cur = v or cur
+            elif t.startswith("H") and ":" in t:
+                sizes = tuple(int(x) for x in t.split(":")[1].split("+"))
+                out.add((cur, sum(sizes), sizes))
+    return out
 
 
 def pseudo_frames(step):
@@ -180,8 +211,8 @@ def pseudo_frames(step):
         k = t[0]
         if t == "SA":
             fr.append((4, 1, 0, b""))
-        elif t == "PA":
-            fr.append((6, 1, 0, bytes(8)))
+        elif t.startswith("PA"):
+            fr.append((6, 1, 0, bytes.fromhex(t[2:]) if len(t) == 18 else bytes(8)))
         elif k == "G":
             a, b = t[1:].split(",")
             fr.append((7, 0, 0, struct.pack(">II", int(a), int(b))))
@@ -192,8 +223,10 @@ def pseudo_frames(step):
             a, b = t[1:].split(",")
             fr.append((8, 0, int(a), struct.pack(">I", int(b))))
         elif k == "H":
-            a, b, c = t[1:].split(",")
-            fr.append((1, 4 | int(c), int(a), _Z(1)))
+            a, b, c = t[1:].split(":")[0].split(",")
+            sizes = [int(x) for x in t.split(":")[1].split("+")] if ":" in t else [1]
+            for i, n in enumerate(sizes):
+                fr.append((1 if i == 0 else 9, (int(c) if i == 0 else 0) | (4 if i == len(sizes) - 1 else 0), int(a), _Z(n)))
         elif k == "D":
             a, b, c = t[1:].split(",")
             fr.append((0, int(c), int(a), _Z(int(b))))
@@ -368,6 +401,7 @@ def run(ctx, c05):
     else:
         frame_pred = {}
     ndis = nident = 0
+    hsplits = set()            # (max frame size in force, header block length, frame payload sizes) seen
     first_out = {}
     reported = set()
     for j, (line, (ci, kind, same, marks)) in enumerate(zip(lines, meta)):
@@ -411,7 +445,9 @@ def run(ctx, c05):
             elif same and not case.raw:
                 sent = case.step_toks
                 verdict = c05.monitor(sent, frames_steps) or \
-                    c05.client_oracle(sent, [c05.canon_model(" ".join(s)) for s in steps], fin)
+                    c05.client_oracle(sent, [c05.canon_model(" ".join(s)) for s in steps], fin, case.noack)
+                if not verdict:
+                    hsplits.update(header_splits(sent, steps))
             elif same:
                 verdict = c05.monitor([[] for _ in steps], frames_steps, raw=True)
         if verdict:
@@ -455,6 +491,19 @@ def run(ctx, c05):
                               {"property": ctx.pid, "kind": "correspondence", "correspondence": NAME + "/model",
                                "input": line, "tokens": case.tokline, "model_obs": mod[j],
                                "frame_model_obs": frame_pred[ci]}, found=False)
+    # the HEADERS / CONTINUATION split of h2_send_hpack() against the model's hpackSplit
+    if hsplits and ctx.model_ok:
+        hs = sorted(hsplits)
+        ho, hrc, herr = C.run_model("h2", ["hsplit %d %d" % (f, n) for f, n, _ in hs])
+        for (f, n, sizes), o in zip(hs, ho):
+            ctx.evaluations += 1
+            ctx.keys["splits:hsplit:%d:%d" % (f, len(sizes))] += 1
+            if o != "+".join(str(x) for x in sizes):
+                ctx.violation("corr:%s:hpack-split" % NAME,
+                              "HEADERS/CONTINUATION split of a response header block differs from the model",
+                              {"property": ctx.pid, "kind": "correspondence", "correspondence": NAME + "/hsplit",
+                               "input": "hsplit %d %d" % (f, n), "impl_obs": "+".join(str(x) for x in sizes),
+                               "model_obs": o}, found=False)
     step = max(1, len(lines) // 4)
     for j in range(0, len(lines), step):
         ctx.sample({"stream": NAME, "tokens": cases[meta[j][0]].tokline[:300], "segmentation": meta[j][1],
@@ -538,7 +587,8 @@ def replay(ctx, c05, rep):
             elif steps is not None and not raw and len(steps) == len(sent):
                 frs = [pseudo_frames(st)[0] for st in steps]
                 v = None if any(f is None for f in frs) else (
-                    c05.monitor(sent, frs) or c05.client_oracle(sent, [c05.canon_model(" ".join(st)) for st in steps], fin))
+                    c05.monitor(sent, frs) or c05.client_oracle(sent, [c05.canon_model(" ".join(st)) for st in steps], fin,
+                                                                toks.split(" ")[1:2] == ["noack"]))
                 print("oracle:", v)
                 bad = bad or bool(v)
     if rc != 0:
